@@ -101,16 +101,16 @@ theorem exactly_the_slave_ports (m : Master) (s : SlaveSt) (h : Synced m s) (id 
 example : Synced m0 s0 ∧ Inv Fix.asFound m0 s0 ∧ s0.queue = [] := by decide
 
 /-- After the hub's ticks the value shown by GET /ports (`lastRead`) is the newest remote value … -/
-theorem reported_value_after_ticks (p : MPort) (he : p.enabled = true) (hq : p.rq ≠ []) :
-    (drainPort p.rq.length p).2.lastRead = p.lastRemote := by
-  rw [drainPort_spec _ p he (Nat.le_refl _)]
-  exact drained_lastRead p hq
+theorem reported_value_after_ticks (fix : Fix) (p : MPort) (he : p.enabled = true) (hq : p.rq ≠ []) :
+    (drainPort fix p.rq.length p).2.lastRead = p.lastRemote := by
+  rw [drainPort_spec fix _ p he (Nat.le_refl _)]
+  exact drained_lastRead fix p hq
 
 /-- … and nothing is left in the queue. -/
-theorem queue_empty_after_ticks (p : MPort) (n : Nat) (he : p.enabled = true) (hn : p.rq.length ≤ n) :
-    (drainPort n p).2.rq = [] := by
-  rw [drainPort_spec n p he hn]
-  exact drained_rq p
+theorem queue_empty_after_ticks (fix : Fix) (p : MPort) (n : Nat) (he : p.enabled = true) (hn : p.rq.length ≤ n) :
+    (drainPort fix n p).2.rq = [] := by
+  rw [drainPort_spec fix n p he hn]
+  exact drained_rq fix p
 
 example : ∃ p ∈ m0.ports, p.enabled = true ∧ p.rq ≠ [] := by decide
 
@@ -118,12 +118,17 @@ example : ∃ p ∈ m0.ports, p.enabled = true ∧ p.rq ≠ [] := by decide
 
 /-- The series of value changes reported while the queue of an enabled port is read is the queue itself, oldest
 first, minus the entries equal to their predecessor (no *change* to report). -/
-theorem drain_reports_queue (p : MPort) (he : p.enabled = true) :
-    (drainPort p.rq.length p).1 = dedupFrom p.lastRead p.rq := by
-  rw [drainPort_spec _ p he (Nat.le_refl _)]
+theorem drain_reports_queue (fix : Fix) (p : MPort) (he : p.enabled = true) :
+    (drainPort fix p.rq.length p).1 = dedupFrom p.lastRead p.rq := by
+  rw [drainPort_spec fix _ p he (Nat.le_refl _)]
 
-example : (drainPort 4 ⟨1, [], [some 5, some 6, some 6, some 7], some 5, [], false, some 5, true⟩).1 =
+example : (drainPort Fix.repaired 4 ⟨1, [], [some 5, some 6, some 6, some 7], some 5, [], false, some 5, true⟩).1 =
     [some 6, some 7] := by decide
+-- a value is pending (repaired `read_value`): the same series is reported, the cached value stays the user's 9
+example : drainPort Fix.repaired 4 ⟨1, [], [some 5, some 6, some 6, some 7], some 9, [], true, some 5, true⟩ =
+    ([some 6, some 7], ⟨1, [], [], some 9, [], true, some 7, true⟩) := by decide
+example : drainPort Fix.asFound 4 ⟨1, [], [some 5, some 6, some 6, some 7], some 9, [], true, some 5, true⟩ =
+    ([some 6, some 7], ⟨1, [], [], some 7, [], true, some 7, true⟩) := by decide
 
 /-! ### 5b. Exactly one port per slave port -/
 
@@ -187,7 +192,7 @@ theorem values_in_order (fix : Fix) (m : Master) (id : Nat) (p : MPort) (vs : Li
     (hf : findPort m.ports id = some p) (hpv : p.provValue = false) (he : p.enabled = true)
     (hr : p.rq = [] → p.lastRead = p.cached) :
     ∃ p', findPort (handleEvents fix m (vs.map (Ev.valueChange id))).ports id = some p' ∧
-      (drainPort p'.rq.length p').1 = dedupFrom p.lastRead (p.rq ++ vs) :=
+      (drainPort fix p'.rq.length p').1 = dedupFrom p.lastRead (p.rq ++ vs) :=
   reported_series fix id vs m p hf hpv he hr
 
 example : ∃ p, findPort m0.ports 1 = some p ∧ p.provValue = false ∧ p.enabled = true ∧ p.rq ≠ [] ∧
@@ -475,54 +480,108 @@ example : (findPort (stepEvent Fix.repaired (editAttr (goOffline m0) 1 5 21).1
 
 `ExposedInv m`: for every port, when the remote queue is empty the exposed value is the cached one
 (`p.rq = [] → p.lastRead = p.cached`, i.e. `= p.lastRemote`). It is the hypothesis `hr` of `values_in_order` and the
-missing `rq = []` case of `reported_value_after_ticks`. -/
+missing `rq = []` case of `reported_value_after_ticks`.
+
+`ExposedInvF fix m` is the form that holds along the runs for the behaviour selected by `fix`. With `read_value` as
+found it is `ExposedInv m`. With the repaired `read_value` (`keepPendingValue`: the popped value is reported but does
+not replace `_cached_value` while a value is pending provisioning) `lastRead` follows the popped values and `cached`
+stays the user's value while a value is pending, so it says: every port with NO VALUE PENDING satisfies
+`p.rq = [] → p.lastRead = p.cached`, and every port with a value pending has one cached (the value the reconnect
+will push). With no value pending anywhere the two coincide (`exposed_invariant_forms_agree`). -/
 
 /-- **Invariant along every run** of the combined action type `MAct` — listen batches / pushed events, ticks,
 going offline, refresh fetch, reconnect (`_handle_online`), pushed-events run (`_provision_and_update`), both parts
 of `_poll_once`, value-fetch answers, master-side edits of values, port attributes and device attributes — for the
-code as found and repaired. `GuardedRun`: value writes are made while the slave is online and a reconnect pushes
-pending values with a body the slave accepts (trivial when no value is pending). -/
-theorem exposed_value_invariant (fix : Fix) (m : Master) (l : List MAct) (h : ExposedInv m)
-    (hg : GuardedRun fix m l) : ExposedInv (mrun fix m l) :=
+code as found and repaired. `GuardedRun`: a reconnect pushes pending values with a body the slave accepts (trivial
+when no value is pending) and, with `read_value` as found only, value writes are made while the slave is online. -/
+theorem exposed_value_invariant (fix : Fix) (m : Master) (l : List MAct) (h : ExposedInvF fix m)
+    (hg : GuardedRun fix m l) : ExposedInvF fix (mrun fix m l) :=
   exposed_mrun fix l m h hg
 
 /-- It holds of the empty hub, hence of every master state reached by such a run. -/
 theorem exposed_value_from_start (fix : Fix) (mode : Mode) (l : List MAct)
-    (hg : GuardedRun fix (Master.init mode) l) : ExposedInv (mrun fix (Master.init mode) l) :=
-  exposed_mrun fix l _ (exposed_init mode) hg
+    (hg : GuardedRun fix (Master.init mode) l) : ExposedInvF fix (mrun fix (Master.init mode) l) :=
+  exposed_mrun fix l _ (exposedF_init fix mode) hg
+
+/-- `read_value` as found: the former statement, on `ExposedInv` itself. -/
+theorem exposed_value_invariant_as_found (fix : Fix) (hk : fix.keepPendingValue = false) (m : Master) (l : List MAct)
+    (h : ExposedInv m) (hg : GuardedRun fix m l) : ExposedInv (mrun fix m l) :=
+  (exposedInvF_asFound fix hk _).mp (exposed_mrun fix l m ((exposedInvF_asFound fix hk m).mpr h) hg)
+
+/-- The two forms agree on every master state with no value pending (whatever `fix`) … -/
+theorem exposed_invariant_forms_agree (fix : Fix) (m : Master) (hn : NoValuePending m) :
+    ExposedInvF fix m ↔ ExposedInv m :=
+  exposedInvF_noValuePending fix m hn
+
+/-- … and port by port: along the runs, a port with no value pending exposes the cached value once its queue is
+empty. -/
+theorem exposed_when_no_value_pending (fix : Fix) (m : Master) (h : ExposedInvF fix m) (p : MPort) (hp : p ∈ m.ports)
+    (hpv : p.provValue = false) : p.rq = [] → p.lastRead = p.cached :=
+  (h p hp).2 (by rw [hpv, Bool.and_false])
+
+/-- Repaired `read_value`, a value pending: the ticks expose the queued slave values but the cached value — what the
+reconnect will push — stays the user's (`lastRead ≠ cached` is then the normal situation, not a violation). -/
+theorem pending_value_survives_ticks (fix : Fix) (hk : fix.keepPendingValue = true) (p : MPort)
+    (he : p.enabled = true) (hpv : p.provValue = true) :
+    (drainPort fix p.rq.length p).2.cached = p.cached ∧ (drainPort fix p.rq.length p).2.provValue = true ∧
+    (drainPort fix p.rq.length p).2.rq = [] ∧
+    (p.rq ≠ [] → (drainPort fix p.rq.length p).2.lastRead = p.lastRemote) :=
+  pending_value_cached_after_ticks fix hk p he hpv
 
 example : ExposedInv m0 := by
   intro p hp
   simp only [m0, Master.init, List.mem_cons, List.mem_nil_iff, or_false] at hp
   rcases hp with rfl | rfl <;> intro h <;> first | rfl | cases h
+example : NoValuePending m0 := by
+  intro p hp
+  simp only [m0, Master.init, List.mem_cons, List.mem_nil_iff, or_false] at hp
+  rcases hp with rfl | rfl <;> rfl
 example : GuardedRun Fix.asFound m0
     [.events [.valueChange 1 (some 8)], .tick, .editValue 1 3 true, .goOffline, .editAttr 1 5 21,
      .reconnect [] (some []) (some [⟨1, [(0, 1)], some (some 4)⟩]), .pollPorts [⟨1, [(0, 1)], some none⟩], .tick] := by
   decide
+-- repaired: the run may also write a value while the slave is offline (and tick over it) before the reconnect
+example : GuardedRun Fix.repaired m0
+    [.events [.valueChange 1 (some 8)], .goOffline, .editValue 1 3 true, .tick, .editAttr 1 5 21,
+     .reconnect [] (some []) (some [⟨1, [(0, 1)], some (some 4)⟩]), .pollPorts [⟨1, [(0, 1)], some none⟩], .tick] := by
+  decide
+example : ¬ GuardedRun Fix.asFound m0 [.goOffline, .editValue 1 3 true] := by decide
 
-/-- The guard on value writes is not superfluous: the OFFLINE write stores the user's value in `_cached_value`
-and leaves `_last_read_value` alone, so the master keeps exposing the old value 7 while the newest "remote" value
-it works with is 9 (until the reconnect queues the pushed value). That lag is the subject of C13. -/
+/-- With `read_value` as found the guard on value writes is not superfluous: the OFFLINE write stores the user's value
+in `_cached_value` and leaves `_last_read_value` alone, so the master keeps exposing the old value 7 while the newest
+"remote" value it works with is 9 (until the reconnect queues the pushed value) — `ExposedInv` fails although the
+queue is empty. That lag is the subject of C13; the repaired invariant `ExposedInvF` records it as "a value is
+pending on the port" and still holds (second part). -/
 theorem exposed_broken_by_offline_write :
-    let m := (drain (goOffline m0)).2
+    let m := (drain Fix.asFound (goOffline m0)).2
     let m' := (editValue m 1 9 true).1
     (∀ p ∈ m.ports, p.rq = [] → p.lastRead = p.cached) ∧
-    (findPort m'.ports 1).map (fun p => (p.rq, p.lastRead, p.lastRemote)) = some ([], some 7, some 9) := by
+    (findPort m'.ports 1).map (fun p => (p.rq, p.lastRead, p.lastRemote)) = some ([], some 7, some 9) ∧
+    (drain Fix.repaired (goOffline m0)).2 = m ∧
+    (findPort m'.ports 1).map (fun p => (p.provValue, p.cached)) = some (true, some 9) := by
   decide
 
 /-- `reported_value_after_ticks` without `p.rq ≠ []`: after the hub's ticks an enabled port exposes its newest
 remote value, nothing is left queued, attributes and id are untouched. -/
-theorem reported_value_after_ticks_all (p : MPort) (he : p.enabled = true) (hx : p.rq = [] → p.lastRead = p.cached) :
-    (drainPort p.rq.length p).2.lastRead = p.lastRemote ∧ (drainPort p.rq.length p).2.rq = [] ∧
-    (drainPort p.rq.length p).2.attrs = p.attrs ∧ (drainPort p.rq.length p).2.id = p.id :=
-  exposed_after_ticks p he hx
+theorem reported_value_after_ticks_all (fix : Fix) (p : MPort) (he : p.enabled = true)
+    (hx : p.rq = [] → p.lastRead = p.cached) :
+    (drainPort fix p.rq.length p).2.lastRead = p.lastRemote ∧ (drainPort fix p.rq.length p).2.rq = [] ∧
+    (drainPort fix p.rq.length p).2.attrs = p.attrs ∧ (drainPort fix p.rq.length p).2.id = p.id :=
+  exposed_after_ticks fix p he hx
 
 /-- `values_in_order` with `hr` discharged by the invariant. -/
 theorem values_in_order_exposed (fix : Fix) (m : Master) (id : Nat) (p : MPort) (vs : List PVal)
     (hx : ExposedInv m) (hf : findPort m.ports id = some p) (hpv : p.provValue = false) (he : p.enabled = true) :
     ∃ p', findPort (handleEvents fix m (vs.map (Ev.valueChange id))).ports id = some p' ∧
-      (drainPort p'.rq.length p').1 = dedupFrom p.lastRead (p.rq ++ vs) :=
+      (drainPort fix p'.rq.length p').1 = dedupFrom p.lastRead (p.rq ++ vs) :=
   reported_series fix id vs m p hf hpv he (hx p (findPort_mem hf))
+
+/-- The same from the run invariant `ExposedInvF` (no value is pending on the port: `hpv`). -/
+theorem values_in_order_along_runs (fix : Fix) (m : Master) (id : Nat) (p : MPort) (vs : List PVal)
+    (hx : ExposedInvF fix m) (hf : findPort m.ports id = some p) (hpv : p.provValue = false) (he : p.enabled = true) :
+    ∃ p', findPort (handleEvents fix m (vs.map (Ev.valueChange id))).ports id = some p' ∧
+      (drainPort fix p'.rq.length p').1 = dedupFrom p.lastRead (p.rq ++ vs) :=
+  reported_series fix id vs m p hf hpv he ((hx p (findPort_mem hf)).2 (by rw [hpv, Bool.and_false]))
 
 /-- **The drained mirror, on the exposed value.** Everything the slave reported has been processed (`Inv`, empty
 session queue), the exposed-value invariant holds; then for every port id the master has a port exactly when the
@@ -532,14 +591,14 @@ theorem mirror_exposes_slave_values_after_drain (fix : Fix) (m : Master) (s : Sl
     (hq : s.queue = []) (hx : ExposedInv m) (id : Nat) :
     (findPort m.ports id).isSome = (findS s.ports id).isSome ∧
     ∀ p q, findPort m.ports id = some p → findS s.ports id = some q → p.enabled = true →
-      (drainPort p.rq.length p).2.lastRead = q.value ∧ (drainPort p.rq.length p).2.attrs = q.attrs ∧
-      (drainPort p.rq.length p).2.rq = [] ∧ (drainPort p.rq.length p).2.id = q.id := by
+      (drainPort fix p.rq.length p).2.lastRead = q.value ∧ (drainPort fix p.rq.length p).2.attrs = q.attrs ∧
+      (drainPort fix p.rq.length p).2.rq = [] ∧ (drainPort fix p.rq.length p).2.id = q.id := by
   have hs := synced_of_inv_drained fix hi hq
   obtain ⟨h1, h2⟩ := synced_unfold hs id
   refine ⟨h1, ?_⟩
   intro p q hp hqq he
   obtain ⟨hpi, hqi, ha, hv⟩ := h2 p q hp hqq
-  obtain ⟨e1, e2, e3, e4⟩ := exposed_after_ticks p he (hx p (findPort_mem hp))
+  obtain ⟨e1, e2, e3, e4⟩ := exposed_after_ticks fix p he (hx p (findPort_mem hp))
   exact ⟨e1.trans hv, e3.trans ha, e2, by rw [e4, hpi, hqi]⟩
 
 example : Inv Fix.asFound m0 s0 ∧ s0.queue = [] ∧ findPort m0.ports 1 = some ⟨1, [(0, 1), (5, 20)], [some 7], some 5, [], false, some 5, true⟩ ∧
@@ -584,7 +643,7 @@ under `device_*`), and the exposed value. -/
 theorem shown_mirror_eq_after_drain (fix : Fix) (sc : Scheme) (name : Nat) (own : Attrs) (m : Master) (s : SlaveSt)
     (hi : Inv fix m s) (hq : s.queue = []) (hx : ExposedInv m) (id : Nat) (p : MPort) (q : SPort)
     (hp : findPort m.ports id = some p) (hqq : findS s.ports id = some q) (he : p.enabled = true) :
-    shownM sc name own (drainPort p.rq.length p).2 = shownS sc name own q := by
+    shownM sc name own (drainPort fix p.rq.length p).2 = shownS sc name own q := by
   obtain ⟨e1, e2, _, e4⟩ := (mirror_exposes_slave_values_after_drain fix m s hi hq hx id).2 p q hp hqq he
   unfold shownM shownS
   rw [e1, e2, e4]
@@ -607,7 +666,9 @@ agreement with the slave:
   going offline, reconnect (push + fetch) ................. `reconnect_resyncs`, `mirror_eq_after_drain_general`
   pushed-events run ....................................... `pushed_sync_resyncs`, `pushed_step_resyncs`
   polling ................................................. `poll_view`, `poll_converges`
-  ticks ................................................... do not touch `lastRemote`/attributes (`drained_lastRemote`)
+  ticks ................................................... do not touch `lastRemote`/attributes with no value pending
+                                                            (`drained_lastRemote`); with one pending, repaired, they
+                                                            leave the cached value the user's (`drained_cached_pending`)
 Not proved as ONE theorem: the overlay invariant along every run that interleaves all of the above with the
 slave's own history. -/
 
